@@ -137,15 +137,22 @@ func customFunc(n *Node) func(t *sp.Task) {
 		var inPaths []string
 		var inData [][]byte
 		for _, in := range node.Ins {
-			ip := t.InIP(in.Name)
-			inPaths = append(inPaths, relWork(ip.Path()))
-			inData = append(inData, ip.Read())
+			inPaths = append(inPaths, relWork(t.InIP(in.Name).Path()))
 		}
 		var pkv []string
 		for _, p := range node.Params {
 			pkv = append(pkv, p.Name+"="+t.Param(p.Name))
 		}
 		o := s.Shell.CustomStart(node.Name, inPaths, pkv)
+		for _, in := range node.Ins {
+			ip := t.InIP(in.Name)
+			if _, err := s.FS.GoStat(ip.Path()); err != nil {
+				// like a command that cannot open its input: the function fails
+				s.Shell.CustomEnd(o, 1)
+				sp.Fail("Go function of task " + o.Key + " cannot open its input " + ip.Path())
+			}
+			inData = append(inData, ip.Read())
+		}
 		s.SleepNS(o.DurNS)
 		if node.Nest > 0 && len(inPaths) > 0 {
 			miniWorkflow("nested_"+node.Name, node.Nest, t.InIP(node.Ins[0].Name).Path(), "ninner").Run()
